@@ -23,6 +23,7 @@ func vfGhost(f func())
 func vfExpectPanic(f func()) bool
 func vfSet(name string, v int)
 func vfMerge(fnSuffix string)
+func vfReplace(fnSuffix string, fn any)
 func vfTier() int
 func vfParam(name string, def int) int
 func vfKnown(id string) bool
